@@ -899,6 +899,24 @@ def _type_table(run: Run, cm) -> None:
         run.instance("R08.9", cm.loc(d), f"TYPE({kind}) accepts instances of {sorted(got) if got else 'nothing (no row)'}", ok=ok)
         if not ok:
             run.violation("R08.9", cm, fi.qualname, f"TYPE table row {kind}", f"TYPE({kind}) tests the value against {sorted(got) if got else 'no row'}; the documented value kind is {sorted(want) if want else 'not a documented kind (STRING, NUMBER, BOOLEAN, LIST)'}")
+    # the kind the table is asked for is the kind the bool guard speaks about: `T.get(K)` and `G == "NUMBER" and isinstance(v, bool)`
+    keys = [c.args[0] for c in walk_no_nested(fi.node) if isinstance(c, ast.Call) and isinstance(c.func, ast.Attribute) and c.func.attr == "get" and c.args and "expected_type" in ast.unparse(c.args[0])]
+    keys += [c.slice for c in walk_no_nested(fi.node) if isinstance(c, ast.Subscript) and isinstance(c.ctx, ast.Load) and "expected_type" in ast.unparse(c.slice)]
+    guards = [c.left for c in walk_no_nested(fi.node) if isinstance(c, ast.Compare) and len(c.ops) == 1 and isinstance(c.ops[0], (ast.Eq, ast.In)) and "expected_type" in ast.unparse(c.left) and any(isinstance(x, ast.Constant) and x.value == "NUMBER" for x in ast.walk(c.comparators[0]))]
+
+    def _resolved(e: ast.AST) -> str:
+        if isinstance(e, ast.Name):
+            ds = [a.value for a in walk_no_nested(fi.node) if isinstance(a, ast.Assign) and len(a.targets) == 1 and is_name(a.targets[0], e.id)]
+            if len(ds) == 1:
+                return ast.unparse(ds[0])
+        return ast.unparse(e)
+
+    for k in keys:
+        for g in guards:
+            same = _resolved(k) == _resolved(g)
+            run.instance("R08.9", cm.loc(g), f"TYPE: the table is asked for `{_resolved(k)}` and the bool guard tests `{_resolved(g)}`", ok=same)
+            if not same:
+                run.violation("R08.9", cm, fi.qualname, g, f"the kind looked up in the table is `{_resolved(k)}` but the guard that keeps booleans out of NUMBER tests `{_resolved(g)}`: for a spelling the two treat differently (TYPE[number]) the table says int|float while the guard is skipped, so True / False pass as numbers")
     # an unknown kind rejects; acceptance lies past a failed `not isinstance(value, <entry>)`
     accepts = [n for n in cfg.nodes if isinstance(n.ast, ast.Return) and _result_valid(n.ast.value) is True]
     if not accepts:
